@@ -64,8 +64,8 @@ def run(check, an: Analysis):
                 '.', 1)[-1]
             key = (out, len(dereg) == 1 and same_key)
             exits.setdefault(key, path)
-        if not registered:
-            raise AnalysisError('%s never registers a consumer buffer' % callee)
+        check.instance('P', '%s:registers' % short(callee.fn.qn), registered > 0,
+                       where_fn(callee.fn), 'a consumer buffer is registered')
         for (out, ok), path in sorted(exits.items(), key=lambda kv: repr(kv[0])):
             check.instance('P', '%s:exit=%s' % (short(callee.fn.qn), out), ok,
                            where_fn(callee.fn),
@@ -143,8 +143,8 @@ def run(check, an: Analysis):
                        where_fn(aiter.fn),
                        'after the last suspension the buffer tested empty (%s) and the '
                        'channel closed (%s)' % (empty, closed), path=rules.path_lines(path))
-    if n_end == 0:
-        raise AnalysisError('Channel.__aiter__ has no normal end')
+    check.instance('T', 'aiter:ends', n_end > 0, where_fn(aiter.fn),
+                   'iteration over a closed channel ends')
     for path in an.paths(await_):
         if path.kind == 'raise' and path.outcome[1].cls == CLOSED:
             event = [e for e in path.events if e.kind == 'raise'][-1]
@@ -188,8 +188,8 @@ def run(check, an: Analysis):
                 check.instance('W', 'popleft->yield', ok, event.where,
                                'the popped message is yielded before any suspension',
                                path=rules.path_lines(path, index))
-    if n == 0:
-        raise AnalysisError('Channel.__aiter__ never pops its buffer')
+    check.instance('W', 'aiter:pops', n > 0, where_fn(aiter.fn),
+                   'iteration takes messages from its buffer')
     # ---- F ------------------------------------------------------------------
     for callee in (aiter, await_, put):
         for node in ast.walk(callee.fn.node):
